@@ -275,6 +275,16 @@ impl Def {
         self.pats.iter().any(|p| p.cb.is_some())
     }
 
+    /// Does any regex / skip pattern or subpattern spell a look-around assertion? (Over-approximation by text:
+    /// an escaped `\$` counts too, which only makes the partial-lexing rules more lenient for that definition.)
+    pub fn has_look(&self) -> bool {
+        let spelled = |data: &[u8]| {
+            let t = String::from_utf8_lossy(data);
+            t.contains('$') || t.contains("\\b") || t.contains("\\B") || t.contains("\\z") || t.contains("\\A") || t.contains('^')
+        };
+        self.pats.iter().any(|p| p.kind != PatKind::Token && spelled(&p.lit.data)) || self.subpats.iter().any(|(_, l)| spelled(&l.data))
+    }
+
     pub fn variant_name(i: usize) -> String {
         format!("V{i}")
     }
